@@ -96,6 +96,7 @@ def execute(prog, kinds, replace_constants):
             tgt_ = args[2] if form == "addout" else args[0]
             if any(np.shares_memory(data_of(tgt_), rv) for rv in replaced_views):
                 raise Skip("in-place statement on memory seen through an array-replaced constant view")
+        flags_before = [(v.constant if is_tensor(v) else None) for v in vals]
         if form == "addout":
             xa, ya, tgt = args
             if not is_tensor(tgt):
@@ -115,7 +116,7 @@ def execute(prog, kinds, replace_constants):
                 del e
                 recs.append(dict(kind="inplace", raised=eb, flag=flag, tgt=ops[2], must_raise=must))
                 return vals, recs, "raised"
-            recs.append(dict(kind="inplace", raised=None, flag=flag, tgt=ops[2], must_raise=must))
+            recs.append(dict(kind="inplace", raised=None, flag=flag, tgt=ops[2], must_raise=must, flags_before=flags_before, flags_after=[(v.constant if is_tensor(v) else None) for v in vals]))
             continue
         if form in ("iadd", "set0"):
             tgt, val = args
@@ -149,7 +150,7 @@ def execute(prog, kinds, replace_constants):
                 del e
                 recs.append(dict(kind="inplace", raised=eb, flag=flag, tgt=ops[0]))
                 return vals, recs, "raised"
-            recs.append(dict(kind="inplace", raised=None, flag=flag, tgt=ops[0]))
+            recs.append(dict(kind="inplace", raised=None, flag=flag, tgt=ops[0], flags_before=flags_before, flags_after=[(v.constant if is_tensor(v) else None) for v in vals]))
             continue
         ar, takes_c, f_mg, f_np = FORMS[form]
         if not any(is_tensor(a) for a in args) and form in ("rev",):
@@ -222,6 +223,9 @@ def check(cell):
             t = vals[rec["tgt"]]
             if t.constant is not rec["flag"]:
                 return ("constant_flag", "in-place target changed its flag from %r to %r" % (rec["flag"], t.constant))
+            for k, (fb, fa) in enumerate(zip(rec.get("flags_before", ()), rec.get("flags_after", ()))):
+                if fb is not fa:
+                    return ("constant_flag", "the in-place statement `%s` changed the flag of value #%d (not its target) from %r to %r" % (st, k, fb, fa))
             continue
         if rec["must_raise"]:
             if rec["raised"] is None:
